@@ -589,8 +589,18 @@ inductive TimerTick where
   | fired (e : Event) (r : StepResult) (c : Clock)
   deriving DecidableEq, Repr
 
+/-- time passes (`d` seconds) without the session being polled: the timers' tasks go on (a tick that falls
+due is queued in the timer's channel, `Rc/Model/Timer.lean`), nothing else happens.  Exact as long as no
+timer collects two un-awaited ticks of which the older one is then discarded by a `reset()` (the hold
+timer is the only one the session resets) - the driver refuses lines that could get there. -/
+def clockWait (c : Clock) (d : Nat) : Clock := { c with now := c.now + d }
+
 /-- mirrors the three timer branches of `Session::tick` when nothing else is pending: the timer
-whose tick comes first fires, `tick` raises ITS event (`self.handle_event(..).await?`). -/
+whose tick comes first fires, `tick` raises ITS event (`self.handle_event(..).await?`).  The paused
+clock moves to that tick unless it is already past it (the tick was queued while the session was not
+polled); every timer that has a tick queued by then is a ready branch of the `select!`: with two of them
+the choice is random (`tie`).  The interval goes on from the deadline it returned (tokio `Interval`,
+Burst), not from the instant the tick was taken. -/
 def tickTimer (cfg : Cfg) (s : St) (c : Clock) : TimerTick :=
   let cands : List (Nat × Event) :=
     (match c.ka with | some t => [(t, Event.keepaliveTimerExpires)] | none => []) ++
@@ -600,14 +610,14 @@ def tickTimer (cfg : Cfg) (s : St) (c : Clock) : TimerTick :=
   | [] => .idle
   | (t0, e0) :: rest =>
     let best := rest.foldl (fun (b : Nat × Event) x => if x.1 < b.1 then x else b) (t0, e0)
-    if (cands.filter fun x => x.1 == best.1).length > 1 then .tie
+    let horizon := max c.now best.1
+    if (cands.filter fun x => decide (x.1 ≤ horizon)).length > 1 then .tie
     else
       let m := best.1
-      -- the interval goes on ticking
       let c1 : Clock := match best.2 with
-        | .keepaliveTimerExpires => { c with now := m, ka := dueAt m (kaInterval cfg) }
-        | .holdTimerExpires => { c with now := m, hold := dueAt m (holdInterval cfg) }
-        | _ => { c with now := m, dop := dueAt m dopInterval }
+        | .keepaliveTimerExpires => { c with now := horizon, ka := dueAt m (kaInterval cfg) }
+        | .holdTimerExpires => { c with now := horizon, hold := dueAt m (holdInterval cfg) }
+        | _ => { c with now := horizon, dop := dueAt m dopInterval }
       .fired best.2 (step cfg s best.2) (clockExec cfg defaultOpen s c1 (actsOfEvent cfg s best.2))
 
 end Rc.Fsm
